@@ -523,11 +523,26 @@ pub(crate) fn l1_prot_null() {
     let r = r.unwrap();
     vassert!(r.debt.is_some() && r.ptr.is_none(), "guard_of_the_empty_value_borrows_and_is_none");
     vassert!(list_h::peek_slot(node, 0) == 0, "empty_value_occupies_a_slot_with_the_null_pointer");
+    // while the guard lives: a writer that replaced the empty value may pay the debt (slot := NONE),
+    // and a younger guard of this thread may then take the freed slot for a real value
+    let paid = nd::any_bool();
+    let reused = paid && nd::any_bool();
+    if paid {
+        list_h::poke_slot(node, 0, NONE);
+    }
+    if reused {
+        list_h::poke_slot(node, 0, model::addr(1));
+    }
     if promote {
         let v: Option<TP> = r.into_inner();
         vassert!(v.is_none(), "promoted_empty_guard_is_none");
     } else {
         drop(r);
+    }
+    let post = list_h::view(node);
+    if reused {
+        vassert!(post.slots[0] == model::addr(1), "guard_of_the_empty_value_leaves_a_paid_and_reused_slot_alone");
+        list_h::poke_slot(node, 0, NONE);
     }
     let post = list_h::view(node);
     vassert!(list_h::same_slots(&post.slots, &pre.slots), "no_borrow_slot_stays_occupied_after_a_guard_of_the_empty_value_is_gone");
